@@ -93,7 +93,7 @@ Definition st0 : st := {| helo := []; mail_from := []; rcpts := [] |}.
 
 Inductive mode := MCmd | MData (buf : str) (size : Z).
 
-Inductive tag := TLhlo | TMail | TRcpt | TData | TDataErrSize | TDataErrMsg
+Inductive tag := TLhlo | TMail | TRcpt | TData | TDataErrSize | TDataErrMsg | TDataErrEof
                | TRset | TNoop | TQuit | TVrfy | THelp | TUnknown.
 
 (** what the server writes.  [Reply t code arg]: one reply (the five-line LHLO
@@ -227,7 +227,9 @@ Section Oracles.
       consumed after QUIT, [None] = everything was read (EOF ends the loop) *)
   Fixpoint run (c : cfg) (s : st) (m : mode) (ls : list str) : list ev * option (list str) :=
     match ls with
-    | [] => ([], None)
+    | [] => (* EOF.  Inside DATA ReadDataCommand fails and handleDATA still
+               writes one 554 before the command loop sees the EOF itself *)
+            (match m with MData _ _ => [Reply TDataErrEof 554 []] | MCmd => [] end, None)
     | l :: ls' =>
         let '(s', m', evs, quit) := step c s m l in
         if quit then (evs, Some ls')
